@@ -1,0 +1,114 @@
+package generator
+
+import (
+	"bytes"
+	"testing"
+
+	"github.com/a-h/templ/parser/v2"
+)
+
+func TestHasChanged(t *testing.T) {
+	generate := func(t *testing.T, body string) GeneratorOutput {
+		t.Helper()
+		tf, err := parser.ParseString("package p\n\ncss c() {\n\tcolor: red;\n}\n\ntempl T(x, y string, h templ.ComponentScript) {\n" + body + "\n}\n")
+		if err != nil {
+			t.Fatalf("failed to parse %q: %v", body, err)
+		}
+		op, err := Generate(tf, new(bytes.Buffer), WithFileName("t.templ"))
+		if err != nil {
+			t.Fatalf("failed to generate %q: %v", body, err)
+		}
+		return op
+	}
+	tests := []struct {
+		name     string
+		previous string
+		updated  string
+		expected bool
+	}{
+		{
+			name:     "no change",
+			previous: `<p>a{ x }</p>`,
+			updated:  `<p>a{ x }</p>`,
+			expected: false,
+		},
+		{
+			name:     "text edits do not require a recompilation",
+			previous: `<p>a{ x }</p>`,
+			updated:  `<p>a longer text { x }</p>`,
+			expected: false,
+		},
+		{
+			name:     "renaming an attribute that is rendered by the same code does not require a recompilation",
+			previous: `<p title={ x }></p>`,
+			updated:  `<p lang={ x }></p>`,
+			expected: false,
+		},
+		{
+			name:     "changed expressions require a recompilation",
+			previous: `<p>{ x }</p>`,
+			updated:  `<p>{ y }</p>`,
+			expected: true,
+		},
+		{
+			name:     "a changed number of literals requires a recompilation",
+			previous: `<p>{ x }{ y }</p>`,
+			updated:  `<p>{ x }a{ y }</p>`,
+			expected: true,
+		},
+		{
+			name:     "moving an expression to an attribute that is rendered by different code requires a recompilation",
+			previous: `<p title={ x }></p>`,
+			updated:  `<p style={ x }></p>`,
+			expected: true,
+		},
+		{
+			name:     "moving an expression from text into a script requires a recompilation",
+			previous: `<p>{ x }</p>`,
+			updated:  "<script>{{ x }}</script>",
+			expected: true,
+		},
+		{
+			name:     "adding children requires a recompilation",
+			previous: `<p></p>`,
+			updated:  `<p></p>{ children... }`,
+			expected: true,
+		},
+		{
+			name:     "moving children requires a recompilation",
+			previous: `<p>{ x }{ children... }a{ y }b{ x }</p>`,
+			updated:  `<p>{ x }a{ children... }b{ y }{ x }</p>`,
+			expected: true,
+		},
+		{
+			name:     "turning an event handler into a component call requires a recompilation",
+			previous: `<i onclick={ h }></i>`,
+			updated:  "<i>\n@h\n</i>",
+			expected: true,
+		},
+	}
+	for _, test := range tests {
+		t.Run(test.name, func(t *testing.T) {
+			actual := HasChanged(generate(t, test.previous), generate(t, test.updated))
+			if actual != test.expected {
+				t.Errorf("expected %v, got %v", test.expected, actual)
+			}
+		})
+	}
+	t.Run("editing a constant CSS property requires a recompilation", func(t *testing.T) {
+		gen := func(colour string) GeneratorOutput {
+			tf, err := parser.ParseString("package p\n\ncss c() {\n\tcolor: " + colour + ";\n}\n\ntempl T() {\n<p class={ c() }></p>\n}\n")
+			if err != nil {
+				t.Fatalf("failed to parse: %v", err)
+			}
+			op, err := Generate(tf, new(bytes.Buffer), WithFileName("t.templ"))
+			if err != nil {
+				t.Fatalf("failed to generate: %v", err)
+			}
+			return op
+		}
+		if !HasChanged(gen("red"), gen("blue")) {
+			t.Error("expected true, got false")
+		}
+	})
+}
